@@ -6,12 +6,12 @@
 package c20
 
 import (
-	"io"
 	"bufio"
 	"bytes"
 	"context"
 	"errors"
 	"fmt"
+	"io"
 	"net"
 	"net/http"
 	"runtime"
